@@ -77,6 +77,11 @@ def build(rng, k, tables=None):
     if k % 9 == 0:
         secs.append(genpel.gen_lp(rng, ntargets=3, namelen=4))
     rng.shuffle(secs)
+    if k % 7 == 3:
+        # an extended user data section from ANOTHER creator in front of (or between) the header-type sections: whose
+        # log it is does not change
+        other = rng.choice([c for c in 'OBHM' if c != creator])
+        secs.insert(rng.choice([0, 0, 1]), genpel.gen_ed(rng, creator=other))
     pel['secs'] = secs
     if tables and creator in tables:
         ids = [[int(key[0:2], 16), int(key[2:4], 16)] for key in sorted(tables[creator])]
